@@ -77,8 +77,8 @@ def mutate_strategy(draw: Any) -> Tuple[str, str]:
     return text, "repo:" + kind
 
 
-class _Timeout(Exception):
-    pass
+class _Timeout(BaseException):
+    """BaseException: must not be mistaken for an exception escaping the code under test."""
 
 
 def _alarm(signum: Any, frame: Any) -> None:
